@@ -9,6 +9,7 @@ package agreement
 //	VERIF_ND_SCENARIO=doublecommit   crash-restart-crash of one honest node + one Byzantine of four  → two commits? (C01/C02 finding)
 //	VERIF_ND_SCENARIO=fastvote       fast-recovery timeout handled while Step ≤ cert, then a soft threshold → cert vote after `down ⊥`
 //	VERIF_ND_SCENARIO=latepayload    a next-quorum of nodes sees the soft threshold but gets the payload only after its deadline (step next)
+//	VERIF_ND_SCENARIO=trimdrop       proposalStore.trim drops the payload of the value a node cert-voted (7 nodes, 2 Byzantine)
 //	VERIF_ND_SCENARIO=fastcommit     … extended to a ⊥ next-quorum and a cert quorum sharing honest nodes → two commits?
 
 import (
@@ -251,6 +252,9 @@ func TestVerifNetDriveScenario(t *testing.T) {
 	if name == "stalecert" {
 		cfg.honest = []bool{false, true, false, false} // nodes 0, 2, 3 are played by the harness with their real keys
 	}
+	if name == "trimdrop" {
+		cfg = ndTrimDropConfig(t, cfg)
+	}
 	W, _ := cfg.W()
 	ndProto(W, cfg.T)
 	r := ndNewRun(t, cfg, nil)
@@ -275,6 +279,8 @@ func TestVerifNetDriveScenario(t *testing.T) {
 			scenStaleCert(s)
 		case "latepayload":
 			scenLatePayload(s)
+		case "trimdrop":
+			scenTrimDrop(s)
 		default:
 			t.Fatalf("unknown scenario %s", name)
 		}
@@ -446,5 +452,164 @@ func scenLatePayload(s *ndScen) {
 	}
 	s.deliver(func(m *ndMsg, in ndInfo) bool { return in.kind == 'V' && in.step == soft && in.period == 1 })
 	s.deliver(func(m *ndMsg, in ndInfo) bool { return in.kind == 'V' && in.step == cert && in.period == 1 })
+	s.finish()
+}
+
+// ---------------------------------------------------------------------------------------------- trimdrop
+
+// roles of the trimdrop scenario: indices of Z1, Z2 (Byzantine) and A, B, C, D, E (honest)
+var ndTrimRoles [7]int
+
+// ndTrimDropConfig: 7 nodes of weight 1, two Byzantine (F = 2 < W/3, T = 5, HQ holds).  Roles are assigned by the
+// proposal credentials (a function of the keys and the round's seed): in period 0 B's credential beats C's, D's and E's
+// (so they soft-vote B's block v), in period 1 Z2's beats Z1's, A's, C's and E's (so Z2's proposal-vote replaces Z1's
+// re-proposal in A's tracker, and A, C, E soft-vote Z2's block).
+func ndTrimDropConfig(t *testing.T, base ndConfig) ndConfig {
+	cfg := base
+	cfg.n, cfg.T = 7, 5
+	cfg.w = []uint64{1, 1, 1, 1, 1, 1, 1}
+	cfg.honest = []bool{true, true, true, true, true, true, true}
+	ndProto(7, 5)
+	tmp := ndNewRun(t, cfg, nil)
+	ref := tmp.refLedger()
+	scratch := ndGetWorld()
+	var cred [2][7]vote
+	for per := 0; per < 2; per++ {
+		for id := 0; id < 7; id++ {
+			pv := proposalValue{OriginalPeriod: period(per), OriginalProposer: scratch.parts[id].Parent}
+			pv.BlockDigest[0] = 1
+			uv, err := ndSignWith(scratch, id, tmp.start, period(per), propose, pv, ref)
+			if err != nil {
+				t.Fatal(err)
+			}
+			v, err := uv.verify(ref)
+			if err != nil {
+				t.Fatal(err)
+			}
+			cred[per][id] = v
+		}
+	}
+	for _, n := range tmp.nodes {
+		if n.acc.Handle != nil || true {
+			n.acc.Close()
+		}
+	}
+	less := func(per, a, b int) bool { return cred[per][a].Cred.Less(cred[per][b].Cred) }
+	used := [7]bool{}
+	var pick [7]int // Z1 Z2 A B C D E
+	var rec func(k int) bool
+	rec = func(k int) bool {
+		if k == 7 {
+			Z1, Z2, A, B, C, D, E := pick[0], pick[1], pick[2], pick[3], pick[4], pick[5], pick[6]
+			return less(0, B, C) && less(0, B, D) && less(0, B, E) && less(1, Z2, Z1) && less(1, Z2, A) && less(1, Z2, C) && less(1, Z2, E)
+		}
+		for id := 0; id < 7; id++ {
+			if used[id] {
+				continue
+			}
+			used[id], pick[k] = true, id
+			if rec(k + 1) {
+				return true
+			}
+			used[id] = false
+		}
+		return false
+	}
+	if !rec(0) {
+		t.Fatal("trimdrop: no role assignment satisfies the credential constraints")
+	}
+	ndTrimRoles = pick
+	cfg.honest[pick[0]], cfg.honest[pick[1]] = false, false
+	return cfg
+}
+
+// scenTrimDrop: proposalStore.handle(softThreshold) returns committableEvent without recording Relevant[period] when
+// the payload is already assembled.  A knows v only through Z1's period-1 re-proposal vote (Relevant[1] = v) plus a
+// payload relayed without its vote; A cert-votes v in period 0; Z2's period-1 proposal-vote with a lower credential
+// replaces Relevant[1], store.trim drops v's assembler, stagedValue is no longer committable, and at its deadline A
+// next-votes ⊥ after having cert-voted v.  Cert quorum {A,B,D,Z1,Z2} → B commits v; ⊥ next-quorum {A,C,E,Z1,Z2} →
+// period 1 → A, C, E commit Z2's block w.
+func scenTrimDrop(s *ndScen) {
+	s.start()
+	rnd := s.r.start
+	Z1, Z2, A, B, C, D, E := ndTrimRoles[0], ndTrimRoles[1], ndTrimRoles[2], ndTrimRoles[3], ndTrimRoles[4], ndTrimRoles[5], ndTrimRoles[6]
+	v := s.valueOf(B, rnd)
+	s.r.note("SCENARIO trimdrop Z1=%d Z2=%d A=%d B=%d C=%d D=%d E=%d v=%s", Z1, Z2, A, B, C, D, E, v)
+	to := func(ids ...int) func(int) bool {
+		return func(x int) bool {
+			for _, i := range ids {
+				if i == x {
+					return true
+				}
+			}
+			return false
+		}
+	}
+	// B's stand-alone proposal-vote reaches C, D, E (not A); B's payload reaches D only
+	s.deliver(func(m *ndMsg, in ndInfo) bool {
+		return in.kind == 'V' && in.step == propose && in.sender == B && m.src == B && to(C, D, E)(m.dst)
+	})
+	s.deliver(func(m *ndMsg, in ndInfo) bool { return in.kind == 'P' && in.sender == B && m.src == B && m.dst == D })
+	// A learns v through Z1's period-1 re-proposal vote and a payload without prior vote
+	s.do("bpv %d %d 1 %s %s", Z1, rnd, v, s.mask(A))
+	s.deliver(func(m *ndMsg, in ndInfo) bool {
+		return m.src == Z1 && m.dst == A && in.kind == 'V' && in.step == propose
+	})
+	s.do("bpl %d %d 0 %s %s", Z1, rnd, v, s.mask(A))
+	s.deliver(func(m *ndMsg, in ndInfo) bool { return m.src == Z1 && m.dst == A && in.kind == 'P' })
+	for _, x := range []int{A, B, C, D, E} {
+		s.do("t %d", x) // filter: B, C, D, E soft-vote v; A soft-votes its own block
+	}
+	for _, z := range []int{Z1, Z2} {
+		s.do("bv %d %d 0 %d %s %s", z, rnd, soft, v, s.mask(A, B, C, D, E))
+	}
+	s.deliver(func(m *ndMsg, in ndInfo) bool {
+		return in.kind == 'V' && in.step == soft && in.period == 0 && in.val == v
+	}) // A, B, D cert-vote v
+	for _, z := range []int{Z1, Z2} {
+		s.do("bv %d %d 0 %d %s %s", z, rnd, cert, v, s.mask(B))
+	}
+	s.deliver(func(m *ndMsg, in ndInfo) bool {
+		return in.kind == 'V' && in.step == cert && in.period == 0 && m.dst == B
+	}) // B commits v
+	// Z2's own period-1 proposal (lower credential than Z1's re-proposal): at A it replaces Relevant[1]; trim drops v
+	s.do("bp %d %d 1 1 %s", Z2, rnd, s.mask(A, C, E))
+	s.deliver(func(m *ndMsg, in ndInfo) bool { return m.src == Z2 && in.kind == 'P' && in.period == 1 })
+	for _, x := range []int{A, C, E} {
+		s.do("t %d", x) // deadline: C, E have no payload → ⊥; A cert-voted v but lost its payload → ⊥
+	}
+	for _, z := range []int{Z1, Z2} {
+		s.do("bv %d %d 0 %d bot %s", z, rnd, next, s.mask(A, C, E))
+	}
+	s.deliver(func(m *ndMsg, in ndInfo) bool {
+		return in.kind == 'V' && in.step == next && in.period == 0 && in.val == "bot" && to(A, C, E)(m.dst)
+	})
+	// period 1
+	w := ""
+	s.r.mu.Lock()
+	for _, pv := range s.r.values[rnd] {
+		if k, ok := s.r.world.byAddr[pv.OriginalProposer]; ok && k == Z2 && pv.OriginalPeriod == 1 {
+			w = ndTok(pv)
+		}
+	}
+	s.r.mu.Unlock()
+	for _, x := range []int{A, C, E} {
+		s.r.mu.Lock()
+		here := s.r.nodes[x].round == rnd && s.r.nodes[x].period == 1
+		s.r.mu.Unlock()
+		if here {
+			s.do("t %d", x) // filter of period 1: soft-vote the best proposal = Z2's w
+		}
+	}
+	if w != "" {
+		for _, st := range []step{soft, cert} {
+			for _, z := range []int{Z1, Z2} {
+				s.do("bv %d %d 1 %d %s %s", z, rnd, st, w, s.mask(A, C, E))
+			}
+			s.deliver(func(m *ndMsg, in ndInfo) bool {
+				return in.kind == 'V' && in.step == st && in.period == 1 && in.val == w && to(A, C, E)(m.dst)
+			})
+		}
+	}
 	s.finish()
 }
